@@ -32,6 +32,9 @@ CATALOG = [
     # ---- C05
     ("C05", "peer-credited-inside-region", "fire", "operon_ai/state/metabolism.py",
      "                self.nadh -= amount\n\n        other.regenerate(amount, energy_type)", "                self.nadh -= amount\n\n            other.regenerate(amount, energy_type)", "C05-R3"),
+    ("C05", "peer-lock-in-same-with", "fire", "operon_ai/state/metabolism.py",
+     "        with self._lock:\n            if energy_type == EnergyType.ATP:\n                if self.atp < amount:\n                    return False\n                self.atp -= amount",
+     "        with self._lock, other._lock:\n            if energy_type == EnergyType.ATP:\n                if self.atp < amount:\n                    return False\n                self.atp -= amount", "C05-R3"),
     ("C05", "lock-to-rlock", "silent", "operon_ai/state/metabolism.py", "self._lock = threading.Lock()", "self._lock = threading.RLock()", None),
     ("C05", "foreign-writer", "fire", "operon_ai/core/agent.py", "        if not self.atp.consume(cost=10):", "        self.atp.atp -= 0\n        if not self.atp.consume(cost=10):", "C05-R4"),
     # ---- C09
